@@ -30,6 +30,9 @@ def load_rules(prop):
 
 def run_rules(mod, repo, run, tier):
     common.reset_caches()
+    from aylint import tracer as _tr, fde as _fde
+    _tr.TOUCHED.clear()
+    _fde.TOUCHED.clear()
     mod.check(repo, run, tier)
 
 
